@@ -32,6 +32,7 @@ def select(ctx, casep):
     cut = [c for c in cases if not c["stf"]]
     n_stf, n_cut = (25, 45) if ctx.quick else (10**6, 10**6)      # thorough: every enumerated scenario
     pick = [c for c in stf if len(c["reports"][0]) == 1]          # the over-budget families, always
+    pick += [c for c in cut if c.get("race")]                     # eject of a service that accumulates in the same round
     pick += [c for c in cut if len(c["reports"]) == 2]            # the tight-limit family (transfer gas added to the limit)
     allon = [c for c in stf if all(c["flags"].values())]
     pick += allon
